@@ -60,6 +60,11 @@ RULE = (
     "run on T in {1,2,4,5}) and TimeDistributedReturn (4 gammas x 2 layouts); torch.inference_mode; "
     "float64 as the default dtype; inputs requiring grad followed by backward; one tensor object used as "
     "mean and std, and handed to accumulate() twice. "
+    "Long instances (horizon / frame axis across plausible blocking thresholds): returns for T in "
+    "{1025, 2049, 3000, 4097}, N=3, gamma in {0.9, 0.99, 1.002} (float64) and {0.99, 1.002} (float32) plus "
+    "gamma 0 and 1, both layouts, functional and module, against the backward "
+    "recursion in float64; MVN with 70,001 frames in one accumulate() between 1,500 small calls; deltas of "
+    "a 5000-step sequence, 4 pad modes. "
     "All cases distinct by construction (cartesian products of duplicate-free generators). Non-trivial: "
     "MVN history with >=2 chunks; delta case with order>=1; return case with T>=2 and gamma != 0."
 )
@@ -80,6 +85,10 @@ ASSUMPTIONS = [
     "at construction; the functional asserts the match) - only dim, time_dim, concatenate, pad_mode, value",
     "larger returns instance: gamma=2 in float64 only (2^39-weighted sums cancel catastrophically in "
     "float32), gamma=1/2 at 1e-5; T stays below the underflow of gamma^T (DESIGN sec. 4)",
+    "long-horizon returns: gamma**T must stay a normal number of the tensor's dtype (the implementation "
+    "divides powers of gamma; under-/overflow is excluded by DESIGN sec. 4), hence gamma=0.9 only in float64 and no "
+    "gamma=1/2 or 2 there; tolerance relative to sum_t' gamma^(t'-t)|r_t'|: 1e-9 (float64), 5e-4 (float32, "
+    "about 2*T*2^-24); a missing factor gamma at a block boundary is an error of |1-gamma| >= 2e-3 of the carry",
     "guard class 5 (don't-care regions) does not apply to C18: no input position is declared ignored",
     "partial statistics: a supplied deviation of 0, and a constant coefficient combined with a foreign mean, "
     "are excluded ((x-mean)/eps with eps=1e-38 overflows float32)",
@@ -891,6 +900,103 @@ def _run_large(ctx, spec, tier, seed):
     ctx.sample({"part": "large", "which": which})
 
 
+# ================================================= long instances along every axis (item 6)
+LONG_T = (1025, 2049, 3000, 4097)  # just past 2^10, 2^11, 2^12 and one that is no power of two
+# (gamma, dtype, relative tolerance): gamma**T must stay a normal number of the dtype (the library
+# forms gamma**t' / gamma**t; under/overflowing powers are outside the alphabet, DESIGN sec. 4)
+LONG_GAMMAS = ((0.9, "float64", 1e-9), (0.99, "float64", 1e-9), (1.002, "float64", 1e-9),
+               (0.99, "float32", 5e-4), (1.002, "float32", 5e-4))
+
+
+def _long_return_case(ctx, T, N, gamma, dtname, tol, batch_first, api, seed):
+    """R_t = r_t + gamma R_(t+1) by the plain backward recursion in float64; the comparison is relative to
+    S_t = sum_t' gamma^(t'-t) |r_t'| (the magnitude the rounding errors of any summation order scale
+    with): float64 1e-9, float32 5e-4 (T * 2^-24 = 2.4e-4 for T = 4097, doubled)."""
+    rng = random.Random(f"c18-long-ret-{seed}-{T}-{N}")
+    cols = [[rng.choice(REWARDS) for _ in range(T)] for _ in range(N)]
+    case = {"kind": "long-return", "T": T, "N": N, "gamma": gamma, "dtype": dtname, "tol": tol,
+            "batch_first": batch_first, "api": api, "seed": seed}
+    ctx.case(1, 1)
+    sig = {"api": "time_distributed_return", "long_horizon": True, "batch_first": batch_first, "gamma": gamma,
+           "dtype": dtname}
+    r = torch.tensor(cols, dtype=DTYPES[dtname])
+    r = r if batch_first else r.t().contiguous()
+    rc = r.clone()
+    try:
+        if api == "functional":
+            R = F.time_distributed_return(r, gamma, batch_first)
+        else:
+            R = M.TimeDistributedReturn(gamma, batch_first)(r)
+    except Exception as e:
+        ctx.violation(dict(sig, symptom="raises", type=type(e).__name__), case, {"error": str(e)[-300:]})
+        return
+    if not _args_unchanged(ctx, "time_distributed_return", case, [(r, rc)]):
+        return
+    if tuple(R.shape) != tuple(r.shape):
+        ctx.violation(dict(sig, symptom="wrong-shape"), case, {"observed": tuple(R.shape)})
+        return
+    got = (R if batch_first else R.t()).tolist()
+    for n in range(N):
+        exp = O.returns(cols[n], gamma)
+        mag = O.returns([abs(v) for v in cols[n]], gamma)
+        bad = [t for t in range(T) if not abs(got[n][t] - exp[t]) <= tol * (1.0 + mag[t])]
+        if bad:
+            t = bad[-1]
+            ctx.violation(dict(sig, symptom="wrong-return"), case,
+                          {"column": n, "wrong_steps": len(bad), "first_wrong": bad[0], "last_wrong": t,
+                           "expected_at_last_wrong": exp[t], "observed_at_last_wrong": got[n][t],
+                           "magnitude": mag[t]})
+            return
+    ctx.outcome([T, gamma, round(exp[0] * 16)])
+
+
+def _run_long(ctx, spec, tier, seed):
+    which = spec["which"]
+    if which == "returns":
+        T = spec["T"]
+        n = 0
+        for gamma, dtname, tol in LONG_GAMMAS:
+            for batch_first in (False, True):
+                n += 1
+                for api in ("functional", "module"):
+                    _long_return_case(ctx, T, 3, gamma, dtname, tol, batch_first, api, seed)
+        # gamma in {0, 1} for completeness (the recursion degenerates)
+        _long_return_case(ctx, T, 2, 0.0, "float32", 1e-6, T % 2 == 0, "functional", seed)
+        _long_return_case(ctx, T, 2, 1.0, "float64", 1e-9, T % 2 == 1, "module", seed)
+    elif which == "mvn":
+        # many frames in one call, and many calls: 70,001 + 3,000 frames of 2 coefficients (float64, exact sums)
+        rng = random.Random(f"c18-long-mvn-{seed}")
+        big = [[rng.randint(-24, 24) / 8.0 for _ in range(2)] for _ in range(70001)]
+        small = [[[rng.randint(-24, 24) / 8.0 for _ in range(2)] for _ in range(1 + i % 3)] for i in range(1500)]
+        allfr = big + [fr for b in small for fr in b]
+        for bessel in (False, True):
+            for pos, dim in ((1, -1), (0, 0)):
+                case = {"kind": "long-mvn", "seed": seed, "bessel": bessel, "dim": dim}
+                ctx.case(1, 1)
+                try:
+                    mvn = M.MeanVarianceNormalization(dim)
+                    for i, b in enumerate(small[:750]):
+                        mvn.accumulate(_layout(b, 2, pos, torch.float64))
+                    mvn.accumulate(_layout(big, 2, pos, torch.float64))
+                    for b in small[750:]:
+                        mvn.accumulate(_layout(b, 2, pos, torch.float64))
+                    mvn.store(bessel=bessel)
+                    _cmp_stats(ctx, "MeanVarianceNormalization", case, mvn.mean, mvn.std, allfr, bessel,
+                               {"long": "70001 frames in one call, 1500 further calls"})
+                except Exception as e:
+                    ctx.violation({"api": "MeanVarianceNormalization", "symptom": "raises", "type": type(e).__name__,
+                                   "long": True}, case, {"error": str(e)[-300:]})
+    else:
+        rng = random.Random(f"c18-long-deltas-{seed}")
+        shape = (5000, 1)
+        flat = [rng.randint(-16, 16) / 4.0 for _ in range(5000)]
+        for mode in PAD_MODES:
+            for api in ("functional", "module"):
+                _delta_case(ctx, flat, shape, -1, 0, True, 2, 2, mode, 0.0, "float64", api)
+                _delta_case(ctx, flat, shape[::-1], 0, -1, False, 1, 3, mode, 0.0, "float32", api)
+    ctx.sample({"part": "long", "spec": spec})
+
+
 # ============================================= partially specified statistics / call variants
 WHICH = ("none", "mean", "std", "both")
 VARIANTS = ("eager", "script", "trace", "inference", "default64", "grad", "shared")
@@ -1265,11 +1371,15 @@ def shards(tier, seed):
         out.append({"part": "large", "which": which})
         out.append({"part": "modes", "which": which})
     out.append({"part": "dataset"})
+    for T in LONG_T:
+        out.append({"part": "long", "which": "returns", "T": T})
+    out.append({"part": "long", "which": "mvn"})
+    out.append({"part": "long", "which": "deltas"})
     # heavy shards first so the pool stays busy
     weight = {"returns": 0, "deltas": 1, "mvn": 2, "cli": 3, "guards-returns": 0, "guards-deltas": 1,
-              "guards-mvn": 2, "history": 3, "large": 1, "modes": 0, "dataset": 2}
+              "guards-mvn": 2, "history": 3, "large": 1, "modes": 0, "dataset": 2, "long": -1}
     # (the cheap history / large parts come first so that a tight wall budget can never skip them)
-    out.sort(key=lambda s: (-1 if s["part"] in ("history", "large", "modes", "dataset") else
+    out.sort(key=lambda s: (-1 if s["part"] in ("history", "large", "modes", "dataset", "long") else
                             0 if (s["part"] == "returns" and s.get("hi")) else 1, weight[s["part"]]))
     return out
 
@@ -1295,6 +1405,8 @@ def run_shard(spec, tier, seed):
         _run_large(ctx, spec, tier, seed)
     elif part == "modes":
         _run_modes(ctx, spec, tier, seed)
+    elif part == "long":
+        _run_long(ctx, spec, tier, seed)
     elif part == "dataset":
         _run_dataset(ctx, spec, tier, seed)
     else:
@@ -1326,6 +1438,11 @@ def replay(case):
     elif kind == "return":
         _return_batch(ctx, case["cols"], case["gamma"], case["batch_first"], case["dtype"], case["api"],
                       case.get("layout", "as-is"), case.get("guard", False), case.get("tol", 1e-6))
+    elif kind == "long-return":
+        _long_return_case(ctx, case["T"], case["N"], case["gamma"], case["dtype"], case["tol"],
+                          case["batch_first"], case["api"], case["seed"])
+    elif kind == "long-mvn":
+        _run_long(ctx, {"which": "mvn"}, "quick", case["seed"])
     elif kind == "partial":
         _mvn_partial(ctx, case["frames"], case["stat_frames"], case["which"], case["route"], case["rank"],
                      case["pos"], case["dim"], case["dtype"], case["variant"], case["statdt"])
